@@ -86,6 +86,9 @@ def check_repair(ctx, runs=None, arb=None):
     for c, r in zip(cases, results):
         if c.get("note", "").startswith("panic"):
             bad.append((c, [1, 0], "the repair function panicked: " + c["note"][:400]))
+        elif c.get("note", "").startswith("self-check"):
+            bad.append((c, [1, 0], "two calls of the real fixPlan (hooks) on two reads of the same stored image gave different results: "
+                        "the repair is not a function of the image (or the store returned two different images)"))
         elif r is None:
             bad.append((c, None, "model evaluation produced no result for this case (shard failed)"))
         elif r[0] != 0:
@@ -195,8 +198,10 @@ ASSUMPTIONS = [
     "instants are abstracted to zero / non-zero; time.Now() stamps and copies of a non-zero attempt End are 'non-zero'",
     "the hooks are called with a logging stub store (fixBlock -> execSeq only uses UpdateSequence / UpdateAction); real sqlite vaults are used to produce "
     "the reachable images and to observe the entry point of real recoveries",
-    "entry point observed on a real recovery = first UpdatePlan after coercion.New: terminal status => End; Running with the image's Start => "
-    "PlanBypassChecks; Running with a new Start => Start",
+    "entry point observed on a real recovery = the recovering engine's own first UpdatePlan (logged by the vault wrapper): new Start => Start; "
+    "new End => End; neither => PlanBypassChecks. Nothing else is taken from a live recovery: the repaired image always comes from the hooks, called "
+    "on the store's view of the image before the Workstream is opened; the store is read again only after Wait returned; a process in which a "
+    "recovery did not end is replaced",
     "Not covered here: the resumed run after repair (stage 2: the engine automaton started from the repaired image)",
 ]
 
